@@ -126,3 +126,28 @@ mut("err-other-to-400", ["C05", "C14"], [(API, "ServerError::Other(err) => error
 mut("err-ack-before-commit", ["C05", "C04", "C02"], [(SRV, "        txn.add_version(version_id, parent_version_id, history_segment)?;\n        txn.commit()?;\n\n        // calculate the urgency", "        txn.add_version(version_id, parent_version_id, history_segment)?;\n        if txn.commit().is_err() {\n            log::warn!(\"commit failed\");\n        }\n\n        // calculate the urgency")], "S-TXN3", "success acknowledged although commit failed")
 mut("err-insert-ignored", ["C05"], [(SQL, "        .context(\"Error adding version\")?;\n        self.con", "        .context(\"Error adding version\").ok();\n        self.con")], "C05.ERR", "INSERT failure ignored, latest still moved")
 mut("err-forget-txn", ["C05"], [(SRV, "            return Ok((\n                AddVersionResult::ExpectedParentVersion(client.latest_version_id),", "            std::mem::forget(txn);\n            return Ok((\n                AddVersionResult::ExpectedParentVersion(client.latest_version_id),")], "C05.DROP", "transaction (and its lock) leaked on the conflict path")
+
+# ---- C17
+mut("cfg-default-config", ["C17"], [(BIN, "    let config = ServerConfig {\n        snapshot_days: server_args.snapshot_days,\n        snapshot_versions: server_args.snapshot_versions,\n    };", "    let config = ServerConfig::default();")], "C17.CFG", "parsed snapshot targets ignored")
+mut("cfg-first-address-only", ["C17"], [(BIN, "    for listen_address in server_args.listen_addresses {\n        log::info!(\"Serving on {}\", listen_address);\n        http_server = http_server.bind(listen_address)?\n    }", "    if let Some(listen_address) = server_args.listen_addresses.into_iter().next() {\n        log::info!(\"Serving on {}\", listen_address);\n        http_server = http_server.bind(listen_address)?\n    }")], "C17.LISTEN", "only the first address is bound")
+mut("cfg-allowlist-none", ["C17", "C16"], [(BIN, "        config,\n        server_args.client_id_allowlist,", "        config,\n        server_args.client_id_allowlist.and(None),")], "C17.LIST", "allow-list replaced by None")
+mut("cfg-datadir-ignored", ["C17"], [(BIN, "SqliteStorage::new(server_args.data_dir)?,", "SqliteStorage::new(std::env::temp_dir())?,")], "C17.DIR", "data dir ignored")
+mut("cfg-env-name", ["C17"], [(BIN, ".env(\"SNAPSHOT_DAYS\")", ".env(\"SNAPSHOTS_DAYS\")")], "C17.ARGS", "wrong env name")
+mut("cfg-allowlist-default", ["C17", "C16"], [(BIN, "                .get_many(\"allow-client-id\")\n                .map(|ids| ids.copied().collect()),", "                .get_many(\"allow-client-id\")\n                .map(|ids| ids.copied().collect())\n                .or_else(|| Some(HashSet::new())),")], "C17.ARGS", "absent list means allow nobody")
+mut("cfg-bind-not-kept", ["C17"], [(BIN, "        http_server = http_server.bind(listen_address)?\n    }\n    http_server.run().await?;", "        http_server = http_server.bind(listen_address)?\n    }\n    HttpServer::new(|| App::new()).run().await?;")], "C17.LISTEN", "run on a different builder")
+
+# ---- C13 / C04 / C19 / C06
+mut("ddl-drop-on-open", ["C13", "C04", "C19"], [(SQL, "        let queries = vec![\n", "        let queries = vec![\n                \"DROP TABLE IF EXISTS versions;\",\n")], "C13.IDEMPOTENT", "schema dropped at open")
+mut("ddl-unconditional", ["C13"], [(SQL, "\"CREATE INDEX IF NOT EXISTS versions_by_parent ON versions (parent_version_id);\"", "\"CREATE INDEX versions_by_parent ON versions (parent_version_id);\"")], "C13.IDEMPOTENT", "reopen fails")
+mut("pragma-sync-off", ["C04"], [(SQL, "        con.query_row(\"PRAGMA journal_mode=WAL\", [], |_row| Ok(()))\n            .context(\"Setting journal_mode=WAL\")?;", "        con.query_row(\"PRAGMA journal_mode=WAL\", [], |_row| Ok(()))\n            .context(\"Setting journal_mode=WAL\")?;\n        con.execute(\"PRAGMA synchronous=OFF\", [])?;")], "C04.PRAGMA", "synchronous off")
+mut("pragma-journal-memory", ["C04"], [(SQL, "PRAGMA journal_mode=WAL", "PRAGMA journal_mode=MEMORY")], "C04.PRAGMA", "journal in memory")
+mut("commit-in-middle", ["C04", "C03", "C05"], [(SQL, "        .context(\"Error adding version\")?;\n        self.con", "        .context(\"Error adding version\")?;\n        self.con.execute(\"COMMIT\", [])?;\n        self.con.execute(\"BEGIN IMMEDIATE\", [])?;\n        self.con")], "S-TXN2", "intermediate commit between insert and latest-move")
+mut("fmt-uuid-simple", ["C19"], [(SQL, "let s = self.0.to_string();", "let s = self.0.simple().to_string();")], "C19.ENC", "ids written without hyphens")
+mut("fmt-file-name", ["C19", "C17"], [(SQL, "directory.as_ref().join(\"taskchampion-sync-server.sqlite3\")", "directory.as_ref().join(\"taskchampion-sync-server-v2.sqlite3\")")], "C19.FILE", "new file name")
+mut("fmt-column-renamed", ["C19"], [(SQL, "CREATE TABLE IF NOT EXISTS versions (version_id STRING PRIMARY KEY, client_id STRING, parent_version_id STRING, history_segment BLOB);", "CREATE TABLE IF NOT EXISTS versions (version_id STRING PRIMARY KEY, client_id STRING, parent_version_id STRING, history_segment BLOB, created INTEGER);")], "C19.SCHEMA", "new column without migration")
+mut("fmt-ts-nonoptional", ["C19", "C11"], [(SQL, "let snapshot_timestamp: Option<i64> = r.get(1)?;", "let snapshot_timestamp: Option<i64> = Some(r.get::<_, i64>(1)?);")], "C19", "NULL timestamp not tolerated")
+mut("pay-lossy", ["C06"], [(AV, ".add_version(client_id, parent_version_id, body.to_vec())", ".add_version(client_id, parent_version_id, String::from_utf8_lossy(&body).into_owned().into_bytes())")], "C06", "lossy utf8 on the path")
+mut("pay-read-string", ["C06", "C19"], [(SQL, "history_segment: r.get(\"history_segment\")?,", "history_segment: r.get::<_, String>(\"history_segment\")?.into_bytes(),")], "C06.BLOB", "read as text")
+mut("pay-slice", ["C06"], [(AS, "        body.extend_from_slice(&chunk);", "        body.extend_from_slice(&chunk[..chunk.len().min(65536)]);")], "C06.ACCUM", "chunk truncated")
+mut("pay-skip-chunk", ["C06"], [(AV, "        body.extend_from_slice(&chunk);", "        if chunk.len() == 1 {\n            continue;\n        }\n        body.extend_from_slice(&chunk);")], "C06.ACCUM", "one-byte chunks skipped")
+mut("pay-bind-text", ["C06", "C19"], [(SQL, "                StoredUuid(parent_version_id),\n                history_segment\n            ]", "                StoredUuid(parent_version_id),\n                String::from_utf8_lossy(&history_segment).into_owned()\n            ]")], "C06.BLOB", "bound as text")
